@@ -246,7 +246,7 @@ int main(int argc, char **argv) {
 			for (size_t i = 0; i < logn; i++) printf("%c %" PRIu64 "%s\n", logv[i].txt[0], logv[i].seq, logv[i].txt + 1);
 			pthread_mutex_unlock(&logmu);
 			if (fd_kind == 2 || fd_kind == 3) printf("R %zu %u\n", peer_rn, crc_upd(0, peer_rbuf, peer_rn));
-			if (pending) printf("Z hang %d\n", pending); else if (!ok) printf("Z nocleanup\n"); else printf("Z ok %d\n", atomic_load(&cleanup_runs));
+			if (logn >= MAXLOG) printf("Z overflow\n"); else if (pending) printf("Z hang %d\n", pending); else if (!ok) printf("Z nocleanup\n"); else printf("Z ok %d\n", atomic_load(&cleanup_runs));
 			fflush(stdout);
 			if (fd_peer >= 0) close(fd_peer);
 			if (fd_lib >= 0) close(fd_lib);
